@@ -75,6 +75,14 @@ func EncoderOf(name string) encode.Encoder {
 		return encode.Int{}
 	case "s16":
 		return encode.String16{}
+	case "f64":
+		// a *encode.TypeEncoder over float64: values whose == is coarser (+0 = -0) or finer (NaN != NaN)
+		// than equality of their encoded bytes
+		e, err := encode.NewTypeEncoderEndian(float64(0), binary.LittleEndian)
+		if err != nil {
+			panic(err)
+		}
+		return e
 	case "te7":
 		// a *encode.TypeEncoder over a fixed-size struct (7 bytes, little endian)
 		e, err := encode.NewTypeEncoderEndian(te7{}, binary.LittleEndian)
@@ -340,6 +348,11 @@ func interp(toks []string) string {
 		fmt.Fprintf(&sb, " keys=%d nodes=%d", st.KeyCnt, st.NodeCnt)
 		return sb.String()
 	case "trie.string":
+		if s.EncName == "f64" && s.St != nil {
+			// the rendering of a float ("%v") is not modelled: the call must return, its text is not compared
+			lp.Catch(func() string { return s.St.String() })
+			return "float-values-not-rendered"
+		}
 		str := s.St.String()
 		return fmt.Sprintf("%d %s", len(str), Fnv64([]byte(str)))
 	case "trie.iter":
